@@ -178,9 +178,16 @@ type inclTable struct {
 	ids  []string
 	vals []int32 // V values; index len(vals) = absent (nil message)
 	bits uint64
+	// arith: instead of a table, a fixed arithmetic predicate on (id, V) for scenarios whose values are unique numbers
+	arith bool
 }
 
-func (t *inclTable) String() string { return fmt.Sprintf("tt%x", t.bits) }
+func (t *inclTable) String() string {
+	if t.arith {
+		return "arith"
+	}
+	return fmt.Sprintf("tt%x", t.bits)
+}
 
 func (t *inclTable) idx(id string, absent bool, v int32) int {
 	ii := -1
@@ -208,6 +215,15 @@ func (t *inclTable) idx(id string, absent bool, v int32) int {
 }
 
 func (t *inclTable) eval(id string, absent bool, v int32) bool {
+	if t.arith {
+		if absent {
+			return false
+		}
+		if id == "a" {
+			return v%2 == 0
+		}
+		return v%3 != 0
+	}
 	i := t.idx(id, absent, v)
 	if i < 0 {
 		return false
